@@ -679,7 +679,7 @@ func genC22(r *rand.Rand, n int, emit func(core.Case)) {
 		case x < 13: // floats
 			k := []string{"float", "double"}[r.IntN(2)]
 			var lit string
-			switch r.IntN(8) {
+			switch r.IntN(10) {
 			case 0:
 				lit = []string{`"NaN"`, `"Infinity"`, `"-Infinity"`, `"nan"`, `"inf"`, `"+Infinity"`, `NaN`, `"0x1p-2"`, `"1_0"`, `" 1"`, `"Inf"`, `"infinity"`}[r.IntN(12)]
 			case 1: // around the largest finite values
@@ -695,6 +695,9 @@ func genC22(r *rand.Rand, n int, emit func(core.Case)) {
 				lit = strconv.FormatFloat(randFloat64(r), 'g', -1, 64)
 			case 5:
 				lit = fmt.Sprintf("%d.%de-%d", r.IntN(10), r.IntN(100000), r.IntN(400))
+			case 6, 7: // literals a hair above / below the midpoint of two adjacent floats: a decoder that rounds twice
+				// (decimal -> float64 -> float32) or with too few digits picks the wrong neighbour
+				lit = midpointLiteral(r, k)
 			default:
 				lit = randNumberLiteral(r)
 			}
@@ -766,6 +769,85 @@ func genC22(r *rand.Rand, n int, emit func(core.Case)) {
 			emit(core.Case{"op": "enc", "k": k, "ctx": ctx, "v": v})
 		}
 	}
+}
+
+// midpointLiteral returns the exact decimal expansion of the midpoint between a random float (of kind k) and its upper
+// neighbour, nudged up or down in the last place by one unit of a digit far below half an ulp of float64; the largest
+// finite value's upper "neighbour" is the overflow threshold, the smallest subnormal's lower one is zero.
+func midpointLiteral(r *rand.Rand, k string) string {
+	var lo, hi *big.Float
+	exact := func(f float64) *big.Float { return new(big.Float).SetPrec(2000).SetFloat64(f) }
+	if k == "float" {
+		var b uint32
+		switch r.IntN(6) {
+		case 0:
+			b = 0x7f7fffff // MaxFloat32: midpoint to 2^128
+		case 1:
+			b = uint32(r.IntN(3)) // zero and the smallest subnormals
+		case 2:
+			b = 0x3f800000 + uint32(r.IntN(4)) // around 1.0
+		default:
+			b = r.Uint32() & 0x7fffffff
+			if b >= 0x7f800000 {
+				b = 0x7f7fffff - uint32(r.IntN(1000))
+			}
+		}
+		lo = exact(float64(math.Float32frombits(b)))
+		if b == 0x7f7fffff {
+			hi = exact(math.Ldexp(1, 128))
+		} else {
+			hi = exact(float64(math.Float32frombits(b + 1)))
+		}
+	} else {
+		b := r.Uint64() & 0x7fffffffffffffff
+		switch r.IntN(5) {
+		case 0:
+			b = 0x7fefffffffffffff
+		case 1:
+			b = uint64(r.IntN(3))
+		}
+		if b >= 0x7ff0000000000000 {
+			b = 0x7fefffffffffffff - uint64(r.IntN(1000))
+		}
+		lo = exact(math.Float64frombits(b))
+		if b == 0x7fefffffffffffff {
+			hi = new(big.Float).SetPrec(2000).SetMantExp(big.NewFloat(1), 1024)
+		} else {
+			hi = exact(math.Float64frombits(b + 1))
+		}
+	}
+	mid := new(big.Float).SetPrec(2000).Add(lo, hi)
+	mid.Quo(mid, big.NewFloat(2))
+	s := mid.Text('f', -1)
+	if len(s) > 55 || !strings.Contains(s, ".") { // keep literals short: use the exponent form with all significant digits
+		s = mid.Text('e', 1200)
+		mant, exp, _ := strings.Cut(s, "e")
+		mant = strings.TrimRight(mant, "0")
+		if strings.HasSuffix(mant, ".") {
+			mant += "0"
+		}
+		if r.IntN(3) != 0 {
+			if r.IntN(2) == 0 {
+				mant += "1" // a hair above the midpoint
+			} else if c := mant[len(mant)-1]; c >= '1' && c <= '9' { // a hair below: decrement the last digit and append a 9
+				mant = mant[:len(mant)-1] + string(c-1) + "9"
+			}
+		}
+		if r.IntN(2) == 0 {
+			s = "-" + mant + "e" + exp
+		} else {
+			s = mant + "e" + exp
+		}
+		return s
+	}
+	if r.IntN(3) != 0 {
+		if r.IntN(2) == 0 {
+			s += "1"
+		} else if s[len(s)-1] != '0' && s[len(s)-1] != '.' {
+			s = s[:len(s)-1] + string(s[len(s)-1]-1) + "9"
+		}
+	}
+	return s
 }
 
 // ---------------------------------------------------------------------------------------------- C26 generator
